@@ -8,6 +8,7 @@ use vcore::canon::*;
 use vcore::gen;
 use vcore::model::*;
 use vcore::refcodec::*;
+use vcore::oracles::*;
 use vcore::runner::*;
 
 fn label_shape(p: &Probe, m: &MMsg, c: &Canon) -> bool {
@@ -67,52 +68,7 @@ pub fn judge_c01(m: &MMsg, p: &Probe) -> Judge {
     if nt && p.want_sample() {
         p.sample(abbreviate(&mmsg_json(m)));
     }
-    let msg = m.build();
-    let head = match catch(|| msg.to_bytes().to_vec()) {
-        Ok(b) => b,
-        Err(e) => return Err(Fail::new("C01/encode-panic", format!("to_bytes panicked: {e}"))),
-    };
-    let bytes = match catch(move || read_all(msg.into_read())) {
-        Ok(Ok(b)) => b,
-        Ok(Err(e)) => return Err(Fail::new("C01/into-read-error", format!("reading into_read() failed: {e}"))),
-        Err(e) => return Err(Fail::new("C01/encode-panic", format!("into_read panicked: {e}"))),
-    };
-    let mut expect_stream = head.clone();
-    expect_stream.extend_from_slice(&m.payload);
-    if bytes != expect_stream {
-        return Err(Fail::new("C01/stream-differs-from-to_bytes+payload", format!("into_read() gave {} bytes, to_bytes()++payload is {} bytes", bytes.len(), expect_stream.len())));
-    }
-    // blocking parser
-    let b2 = bytes.clone();
-    let parsed = match catch(move || IppParser::new(IppReader::new(std::io::Cursor::new(b2))).parse()) {
-        Ok(Ok(r)) => r,
-        Ok(Err(e)) => return Err(Fail::new("C01/reparse-error", format!("parsing the encoder's own output failed: {e:?}; bytes={}", hex_short(&bytes)))),
-        Err(e) => return Err(Fail::new("C01/reparse-panic", format!("parsing the encoder's own output panicked: {e}; bytes={}", hex_short(&bytes)))),
-    };
-    let got = canon_of(&parsed, true);
-    if let Err(d) = canon_match(&expected, &got) {
-        return Err(Fail::new("C01/content-mismatch", format!("blocking parser: {d}")));
-    }
-    let pl = read_all(parsed.into_payload()).map_err(|e| Fail::new("C01/payload-read-error", format!("{e}")))?;
-    if pl != m.payload {
-        return Err(Fail::new("C01/payload-mismatch", format!("payload: expected {} bytes {} got {} bytes {}", m.payload.len(), hex_short(&m.payload), pl.len(), hex_short(&pl))));
-    }
-    // async parser
-    let b3 = bytes.clone();
-    let parsed = match catch(move || futures_executor::block_on(AsyncIppParser::new(AsyncIppReader::new(futures_util::io::Cursor::new(b3))).parse())) {
-        Ok(Ok(r)) => r,
-        Ok(Err(e)) => return Err(Fail::new("C01/reparse-error", format!("async parser failed on the encoder's own output: {e:?}"))),
-        Err(e) => return Err(Fail::new("C01/reparse-panic", format!("async parser panicked: {e}"))),
-    };
-    let got = canon_of(&parsed, true);
-    if let Err(d) = canon_match(&expected, &got) {
-        return Err(Fail::new("C01/content-mismatch", format!("async parser: {d}")));
-    }
-    let pl = read_all(parsed.into_payload()).map_err(|e| Fail::new("C01/payload-read-error", format!("{e}")))?;
-    if pl != m.payload {
-        return Err(Fail::new("C01/payload-mismatch", format!("async payload: expected {} bytes got {} bytes", m.payload.len(), pl.len())));
-    }
-    Ok(())
+    roundtrip_core(m)
 }
 
 pub fn run_c01(ctx: &Ctx) {
@@ -132,77 +88,6 @@ pub fn replay_c01(ctx: &Ctx, _sub: &str, case: &Value) -> Judge {
 // ------------------------------------------------------------------------------------------------
 // C03
 // ------------------------------------------------------------------------------------------------
-
-fn sorted_group(attrs: &[WAttr]) -> Vec<WAttr> {
-    let mut a: Vec<WAttr> = attrs.to_vec();
-    for x in a.iter_mut() {
-        for v in x.values.iter_mut() {
-            sort_members(v);
-        }
-    }
-    a.sort_by(|x, y| x.name.cmp(&y.name));
-    a
-}
-
-fn describe_attr(a: &WAttr) -> String {
-    let s = format!("{:?}", wattr_json(a).to_string());
-    s.chars().take(400).collect()
-}
-
-/// Judge one encoding of the model message against the reference decoder / encoder.
-pub fn judge_encoding(m: &MMsg, bytes: &[u8]) -> Judge {
-    let d = match ref_decode(bytes) {
-        Ok(d) => d,
-        Err(e) => return Err(Fail::new("C03/not-well-formed", format!("reference decoder rejects the encoder's output at offset {}: {}; bytes={}", e.offset, e.reason, hex_short(bytes)))),
-    };
-    if d.attrs_end != bytes.len() {
-        return Err(Fail::new("C03/bytes-after-end-tag", format!("to_bytes() has {} octets after the end-of-attributes tag", bytes.len() - d.attrs_end)));
-    }
-    // exact lengths, no slack: canonical re-encoding of what was decoded reproduces the bytes
-    let re = ref_encode(&d.msg);
-    if re != bytes {
-        return Err(Fail::new("C03/non-canonical-framing", "reference re-encoding of the decoded tree differs from the encoder's bytes".to_string()));
-    }
-    let w = m.to_wire();
-    if (d.msg.version, d.msg.code, d.msg.request_id) != (w.version, w.code, w.request_id) {
-        return Err(Fail::new("C03/header", format!("header decoded as {:#x}/{:#x}/{} expected {:#x}/{:#x}/{}", d.msg.version, d.msg.code, d.msg.request_id, w.version, w.code, w.request_id)));
-    }
-    let got_tags: Vec<u8> = d.msg.groups.iter().map(|g| g.tag).collect();
-    let exp_tags: Vec<u8> = w.groups.iter().map(|g| g.tag).collect();
-    if got_tags != exp_tags {
-        return Err(Fail::new("C03/group-sequence", format!("group delimiters on the wire {got_tags:02x?}, message has {exp_tags:02x?}")));
-    }
-    for (gi, (dg, wg)) in d.msg.groups.iter().zip(w.groups.iter()).enumerate() {
-        let mut names = std::collections::BTreeSet::new();
-        for a in &dg.attrs {
-            if !names.insert(a.name.clone()) {
-                return Err(Fail::new("C03/duplicate-name", format!("group {gi}: attribute name {:?} emitted twice", String::from_utf8_lossy(&a.name))));
-            }
-        }
-        let got = sorted_group(&dg.attrs);
-        let exp = sorted_group(&wg.attrs);
-        if got.len() != exp.len() {
-            return Err(Fail::new("C03/attribute-count", format!("group {gi}: {} attributes on the wire, {} in the message", got.len(), exp.len())));
-        }
-        for (g, e) in got.iter().zip(exp.iter()) {
-            if g != e {
-                // classify for a useful signature
-                let sig = if g.name != e.name {
-                    "C03/attribute-name"
-                } else if g.values.len() != e.values.len() {
-                    "C03/value-count"
-                } else {
-                    "C03/value-tag-or-body"
-                };
-                return Err(Fail::new(sig, format!("group {gi} attribute {:?}: wire has {} ; reference encoding of the model is {}", String::from_utf8_lossy(&e.name), describe_attr(g), describe_attr(e))));
-            }
-        }
-    }
-    // and the content, read by my interpretation, equals the model
-    let interp = interpret(&d.msg).ok_or_else(|| Fail::new("C03/uninterpretable", "a value body does not fit its tag's syntax".to_string()))?;
-    canon_match(&m.canon_ident(), &interp).map_err(|e| Fail::new("C03/content", e))?;
-    Ok(())
-}
 
 pub fn judge_c03(m: &MMsg, p: &Probe, builds: usize) -> Judge {
     let c = m.canon_ident();
